@@ -584,10 +584,18 @@ class Parser:
             ret = self.type()
         params = self.where(params)
         body = None
+        rejected = None
         if not self.eat(';'):
-            body = self.block()
+            start = self.p
+            try:
+                body = self.block()
+            except Unsupported as u:
+                # keep going: only this function is outside the subset
+                self.p = start
+                self.skip_balanced_item()
+                rejected = str(u)
         return Node('fn', line, name=name, params=params, self_kind=self_kind, args=args, ret=ret, body=body,
-                    is_const=is_const, pub=pub, attrs=attrs)
+                    is_const=is_const, pub=pub, attrs=attrs, rejected=rejected)
 
     # -- types
     def type(self):
